@@ -107,3 +107,14 @@
   (ite ((_ is VList) src) (and ((_ is VSl) dst) (= (slf dst) 1) (>= (sla dst) mark) (= (slo dst) 0))
   (ite ((_ is VObj) src)  (and ((_ is VMp) dst) (= (mpf dst) 1) (>= (mpi dst) mark))
        (= dst src))))
+
+; C11: g is what Get / GetTF return for the field that stores the Go value a (the normalisation of a)
+(define-fun getWraps ((h Heap) (g Val) (a Val)) Bool
+  (ite ((_ is VNil) a)   (= g VNil)
+  (ite ((_ is VIntK) a)  (= g (VInt (wrap64 (vkv a))))
+  (ite ((_ is VF32) a)   (= g (VFloat (f32to64 (vf32 a))))
+  (ite ((_ is VList) a)  (= g (select (Lptr h) (impl (vlref a))))
+  (ite ((_ is VObj) a)   (= g (select (Optr h) (impl (voref a))))
+  (ite ((_ is VSl) a)    ((_ is VList) g)
+  (ite ((_ is VMp) a)    ((_ is VObj) g)
+       (= g a)))))))))
